@@ -396,9 +396,24 @@ pub struct SetupGuard;
 impl Drop for SetupGuard {
     fn drop(&mut self) {
         set_thread_hooks(None);
+        SETUP_ACTIVE.with(|s| s.set(false));
+        crate::world::self_lock_detector_removed();
     }
 }
+
+thread_local! {
+    static SETUP_ACTIVE: std::cell::Cell<bool> = const { std::cell::Cell::new(false) };
+}
+
+/// Whether the calling thread is one of the scheduler's controlled threads, or is setting a world up for them
+/// (the scheduler's own hook table is installed then and must stay).
+pub fn is_controlled_thread() -> bool {
+    TID.with(|t| t.get()).is_some() || SETUP_ACTIVE.with(|s| s.get())
+}
+
 pub fn setup_hooks(sched: &Arc<Sched>) -> SetupGuard {
+    crate::world::self_lock_detector_removed();
+    SETUP_ACTIVE.with(|s| s.set(true));
     set_thread_hooks(Some(Arc::new(HookTable(sched.clone()))));
     SetupGuard
 }
